@@ -49,6 +49,20 @@ main(int argc, char *argv[])
 	ppinit();
 	if (pponly) {
 		ppflags |= PPNEWLINE;
+#ifdef CPROC_VERIF
+		if (getenv("CPROC_VERIF_TOKDUMP")) {
+			/* one line per token: kind, space, hide, line, col, file, spelling */
+			for (; tok.kind != TEOF; next()) {
+				printf("%d\t%d\t%d\t%zu\t%zu\t%s\t", tok.kind, tok.space, tok.hide,
+					tok.loc.line, tok.loc.col, tok.loc.file ? tok.loc.file : "");
+				if (tok.kind != TNEWLINE) {
+					tok.space = false;
+					tokenprint(&tok);
+				}
+				putchar('\n');
+			}
+		}
+#endif
 		while (tok.kind != TEOF) {
 			tokenprint(&tok);
 			next();
